@@ -97,7 +97,7 @@ inductive Parsed (H : Type) where
       the value truncated to 32 bits, the table stores the untruncated time) — `Row.time` cannot express that, so the
       model declares the input outside its domain instead of inventing a value -/
   | outside
-deriving Repr
+deriving DecidableEq, Repr
 
 /-- numberOfColumnsInCSVDatabaseFile -/
 def nColumns : Nat := 5
@@ -135,7 +135,7 @@ structure Acc (H : Type) where
   prev : H
   cum : Nat
   idx : Nat
-deriving Repr
+deriving DecidableEq, Repr
 
 /-- calculateFields: height = row index, state LONGEST_CHAIN, cumulated work = running sum
     (`parseBigInt("")` of the first call is 0). `id` is a placeholder: the rowid is given by the insert. -/
@@ -151,7 +151,7 @@ inductive BatchRes (H : Type) where
   | ok (rows : List (Row H)) (acc : Acc H)
   | bad (idx : Nat) (e : RowErr)
   | outside (idx : Nat)
-deriving Repr
+deriving DecidableEq, Repr
 
 /-- the record loop of insertHeaders: the first bad record ends it and NOTHING of the batch is inserted -/
 def prepareBatch (cfg : Cfg H) (cd : Codec H) (hdrLen : Nat) : List Record → Acc H → BatchRes H
